@@ -153,35 +153,38 @@ class Parser:
         return "\n".join(lines)
 
     def _assign_comments(self, _tree: Any) -> None:
-        for node in _tree.children:
-            if not isinstance(node, Tree):
-                continue
+        # depth-first in document order, with an explicit stack (a long AND / OR
+        # chain is as deep as it is long)
+        stack = [iter(_tree.children)]
+        while stack:
+            for node in stack[-1]:
+                if isinstance(node, Tree) and hasattr(node.meta, "line"):
+                    self._assign_node_comments(node)
+                    stack.append(iter(node.children))
+                    break
+            else:
+                stack.pop()
 
-            if not hasattr(node.meta, "line"):
-                continue
+    def _assign_node_comments(self, node: Any) -> None:
+        line = node.meta.line
 
-            line = node.meta.line
+        # when we encounter a new type that can have associated comments
+        # assign all comments up to that point in the Mapfile to the node
+        # for metadata we want to assign comments to the string_pair
+        if node.data in ("composite", "attr", "projection", "string_pair"):
+            # for projection blocks capture any comments within the block
 
-            # when we encounter a new type that can have associated comments
-            # assign all comments up to that point in the Mapfile to the node
-            # for metadata we want to assign comments to the string_pair
-            if node.data in ("composite", "attr", "projection", "string_pair"):
-                # for projection blocks capture any comments within the block
+            if node.data in ("projection"):
+                line = node.meta.end_line
+            line_numbers = list(sorted(self.comments_dict.keys()))
+            comments = []
 
-                if node.data in ("projection"):
-                    line = node.meta.end_line
-                line_numbers = list(sorted(self.comments_dict.keys()))
-                comments = []
+            for line_number in line_numbers:
+                if line_number <= line:
+                    comments.append(self.comments_dict.pop(line_number))
 
-                for line_number in line_numbers:
-                    if line_number <= line:
-                        comments.append(self.comments_dict.pop(line_number))
-
-                if comments:
-                    node.meta.comments = comments  # type: ignore
-
-            if isinstance(node, Tree):
-                self._assign_comments(node)
+            if comments:
+                node.meta.comments = comments  # type: ignore
 
     def load(self, fp: IO[str]) -> Any:
         text = fp.read()
